@@ -2387,21 +2387,38 @@ func (c *compiler) initNestedImports(stmt ast.Statement) {
 	if _, isImport := stmt.(*ast.ImportStmt); isImport {
 		return
 	}
-	ast.VisitNode(nestedImportVisitor{c}, stmt, nil)
+	ast.VisitNode(nestedImportVisitor{c, make(map[*ast.FuncDecl]struct{})}, stmt, nil)
 }
 
 // visits the import statements nested in a statement for initNestedImports
-type nestedImportVisitor struct{ c *compiler }
+type nestedImportVisitor struct {
+	c *compiler
+	// generic instantiations whose bodies were already visited
+	instantiations map[*ast.FuncDecl]struct{}
+}
 
 var (
 	_ ast.ImportStmtVisitor = nestedImportVisitor{}
 	_ ast.FuncDeclVisitor   = nestedImportVisitor{}
+	_ ast.FuncCallVisitor   = nestedImportVisitor{}
 )
 
 func (nestedImportVisitor) Visitor() {}
 
 func (v nestedImportVisitor) VisitImportStmt(imprt *ast.ImportStmt) ast.VisitResult {
 	v.c.initImportedModules(imprt)
+	return ast.VisitRecurse
+}
+
+// the instantiation of a generic function is compiled where it is first called,
+// the import statements in its body belong to the statement that contains that call
+func (v nestedImportVisitor) VisitFuncCall(call *ast.FuncCall) ast.VisitResult {
+	if fun := call.Func; ast.IsGenericInstantiation(fun) && fun.Body != nil {
+		if _, visited := v.instantiations[fun]; !visited {
+			v.instantiations[fun] = struct{}{}
+			ast.VisitNode(v, fun.Body, nil)
+		}
+	}
 	return ast.VisitRecurse
 }
 
